@@ -38,19 +38,68 @@ struct Pair {
     rx: UdpSocket,
     tx_state: UdpSocketState,
     rx_state: UdpSocketState,
+    /// where transmits are addressed to (v4-mapped when the sending socket is dual-stack)
     rx_addr: SocketAddr,
     tx_addr: SocketAddr,
 }
 
-fn pair(v6: bool) -> Option<Pair> {
-    let lo: IpAddr = if v6 { Ipv6Addr::LOCALHOST.into() } else { Ipv4Addr::LOCALHOST.into() };
-    let rx = UdpSocket::bind(SocketAddr::new(lo, 0)).ok()?;
-    let tx = UdpSocket::bind(SocketAddr::new(lo, 0)).ok()?;
+/// socket families of a loopback pair: plain IPv4, plain IPv6, and the three dual-stack arrangements
+/// (an AF_INET6 socket with IPV6_V6ONLY off talking IPv4 through IPv4-mapped addresses)
+#[derive(Clone, Copy, PartialEq, Debug)]
+enum Kind {
+    V4,
+    V6,
+    DualTx,
+    DualRx,
+    DualBoth,
+}
+
+fn bind(kind: u8) -> Option<UdpSocket> {
+    match kind {
+        4 => UdpSocket::bind(SocketAddr::new(Ipv4Addr::LOCALHOST.into(), 0)).ok(),
+        6 => UdpSocket::bind(SocketAddr::new(Ipv6Addr::LOCALHOST.into(), 0)).ok(),
+        _ => {
+            let s = socket2::Socket::new(socket2::Domain::IPV6, socket2::Type::DGRAM, None).ok()?;
+            s.set_only_v6(false).ok()?;
+            s.bind(&SocketAddr::new(Ipv6Addr::UNSPECIFIED.into(), 0).into()).ok()?;
+            Some(s.into())
+        }
+    }
+}
+
+fn canon(a: SocketAddr) -> SocketAddr {
+    SocketAddr::new(a.ip().to_canonical(), a.port())
+}
+
+fn pair_kind(kind: Kind) -> Option<Pair> {
+    let (t, r) = match kind {
+        Kind::V4 => (4, 4),
+        Kind::V6 => (6, 6),
+        Kind::DualTx => (0, 4),
+        Kind::DualRx => (4, 0),
+        Kind::DualBoth => (0, 0),
+    };
+    let rx = bind(r)?;
+    let tx = bind(t)?;
     rx.set_read_timeout(Some(Duration::from_millis(200))).ok()?;
     let rx_state = UdpSocketState::new(UdpSockRef::from(&rx)).ok()?;
     let tx_state = UdpSocketState::new(UdpSockRef::from(&tx)).ok()?;
     let _ = socket2::SockRef::from(&rx).set_recv_buffer_size(4 << 20);
-    Some(Pair { rx_addr: rx.local_addr().ok()?, tx_addr: tx.local_addr().ok()?, tx, rx, tx_state, rx_state })
+    let rx_port = rx.local_addr().ok()?.port();
+    let tx_port = tx.local_addr().ok()?.port();
+    let v4lo = IpAddr::V4(Ipv4Addr::LOCALHOST);
+    let mapped = IpAddr::V6(Ipv4Addr::LOCALHOST.to_ipv6_mapped());
+    // destination as the SENDING socket must spell it; source as the receiver canonically sees it
+    let (dst, src): (IpAddr, IpAddr) = match kind {
+        Kind::V4 | Kind::DualRx => (v4lo, v4lo),
+        Kind::V6 => (Ipv6Addr::LOCALHOST.into(), Ipv6Addr::LOCALHOST.into()),
+        Kind::DualTx | Kind::DualBoth => (mapped, v4lo),
+    };
+    Some(Pair { rx_addr: SocketAddr::new(dst, rx_port), tx_addr: SocketAddr::new(src, tx_port), tx, rx, tx_state, rx_state })
+}
+
+fn pair(v6: bool) -> Option<Pair> {
+    pair_kind(if v6 { Kind::V6 } else { Kind::V4 })
 }
 
 /// receive everything that arrives within the timeout, split by stride as quinn's poll_socket does
@@ -81,6 +130,188 @@ fn recv_all(p: &Pair, expect_bytes: usize) -> Vec<(Vec<u8>, RecvMeta)> {
         }
     }
     got
+}
+
+/// Send one transmit through `UdpSocketState::send`, receive what arrives, record the `udp wire` line and apply
+/// the C19 oracles (derived from the property text): EACH SEGMENT of the transmit arrives as ONE datagram with
+/// identical bytes (boundaries and payload), ECN codepoint, source and destination addresses conveyed.
+/// Returns false when the kernel refused an over-MTU send.
+fn exchange(o: &mut Out, p: &Pair, t: &Transmit<'_>, ctx: &str) -> bool {
+    let len = t.contents.len();
+    let segment_size = t.segment_size;
+    if let Err(e) = p.tx_state.send(UdpSockRef::from(&p.tx), t) {
+        if len > 9000 {
+            return false; // EMSGSIZE on loopback MTU is the kernel's business
+        }
+        o.fails.push(format!("key=udp-send-failed len {len} seg {segment_size:?} ({ctx}): {e}"));
+        return false;
+    }
+    let got = recv_all(p, len);
+    let lens: Vec<String> = got.iter().map(|(d, _)| d.len().to_string()).collect();
+    o.rec(format!("udp wire {} {len}", segment_size.map_or("-".to_string(), |x| x.to_string())), lens.join(","));
+    // what the transmit DESCRIBES: consecutive datagrams of segment_size bytes, the last possibly shorter;
+    // without a segment size one datagram (doc of quinn_udp::Transmit::segment_size)
+    let expected: Vec<&[u8]> = match segment_size {
+        Some(s) => t.contents.chunks(s).collect(),
+        None => vec![t.contents],
+    };
+    let cat: Vec<u8> = got.iter().flat_map(|(d, _)| d.iter().copied()).collect();
+    if cat != t.contents {
+        o.fails.push(format!("key=udp-payload-altered len {len} seg {segment_size:?} ({ctx}): received {} bytes in {} datagrams", cat.len(), got.len()));
+    } else if got.len() != expected.len() || got.iter().zip(&expected).any(|((d, _), e)| d.as_slice() != *e) {
+        let want: Vec<String> = expected.iter().map(|e| e.len().to_string()).collect();
+        let (wn, gn) = (want.len(), lens.len());
+        let brief = |v: &[String]| if v.len() > 6 { format!("{},..,{}", v[..3].join(","), v[v.len() - 1]) } else { v.join(",") };
+        o.fails.push(format!(
+            "key=udp-datagram-boundaries-not-preserved transmit of {len} bytes with segment_size {segment_size:?} ({ctx}) describes {wn} datagram(s) [{}] but {gn} datagram(s) [{}] were received",
+            brief(&want),
+            brief(&lens)
+        ));
+    }
+    for (_, m) in &got {
+        if canon(m.addr) != p.tx_addr {
+            o.fails.push(format!("key=udp-source-address-wrong {} != {} ({ctx})", m.addr, p.tx_addr));
+        }
+        if m.ecn != t.ecn {
+            o.fails.push(format!("key=udp-ecn-not-conveyed sent {:?} got {:?} ({ctx}, len {len}, seg {segment_size:?}, src {:?})", t.ecn, m.ecn, t.src_ip));
+        }
+        if let Some(d) = m.dst_ip {
+            if d.to_canonical() != p.rx_addr.ip().to_canonical() {
+                o.fails.push(format!("key=udp-dst-ip-wrong {d} != {} ({ctx})", p.rx_addr.ip()));
+            }
+        }
+    }
+    true
+}
+
+/// Every boundary shape of a (possibly segmentation-offloaded) transmit on one socket family:
+/// k full segments + a short last one of 1 / seg-1 / a random length in between (k = 1 .. max_gso_segments-1),
+/// exactly k full segments (k = 1 .. max_gso_segments), a single datagram smaller than / equal to the segment
+/// size (with the segment size given), and a single datagram larger than it (no segment size).
+fn shapes(o: &mut Out, rng: &mut Rng, kind: Kind, seed: u64) -> u64 {
+    let Some(p) = pair_kind(kind) else {
+        o.fails.push(format!("key=udp-loopback-unavailable kind={kind:?}"));
+        return 0;
+    };
+    let max_gso = p.tx_state.max_gso_segments();
+    *o.hist.entry(format!("shapes {kind:?} max_gso_segments {max_gso}")).or_default() += 1;
+    let ctx = format!("{kind:?}");
+    let ecns = [None, Some(EcnCodepoint::Ect0), Some(EcnCodepoint::Ect1), Some(EcnCodepoint::Ce)];
+    let mut n = 0u64;
+    let mut i = 0u64;
+    let mut go = |o: &mut Out, rng: &mut Rng, len: usize, segment_size: Option<usize>| {
+        if len == 0 || len > 65000 {
+            return;
+        }
+        i += 1;
+        let contents = content(len, seed.wrapping_add(i));
+        // explicit source (as quinn echoes the address a datagram was received on) on the plain families
+        let src_ip = if matches!(kind, Kind::V4 | Kind::V6) && rng.chance(1, 3) { Some(p.tx_addr.ip()) } else { None };
+        let t = Transmit { destination: p.rx_addr, ecn: ecns[(i % 4) as usize], contents: &contents, segment_size, src_ip };
+        if exchange(o, &p, &t, &ctx) {
+            n += 1;
+        }
+    };
+    for seg in [2usize, 500, 1200, 1452] {
+        // single datagrams around the segment size
+        go(o, rng, 1, Some(seg));
+        go(o, rng, seg - 1, Some(seg));
+        go(o, rng, seg, Some(seg));
+        go(o, rng, seg, None);
+        go(o, rng, seg + 1, None);
+        go(o, rng, 2 * seg, None);
+        if max_gso < 2 {
+            continue;
+        }
+        for k in 1..=max_gso {
+            go(o, rng, k * seg, Some(seg));
+            if k < max_gso {
+                let mut tails = vec![1, seg - 1];
+                if seg > 3 {
+                    tails.push(rng.range(2, seg as u64 - 2) as usize);
+                }
+                tails.dedup();
+                for tail in tails {
+                    go(o, rng, k * seg + tail, Some(seg));
+                }
+            }
+        }
+    }
+    n
+}
+
+extern "C" {
+    fn setsockopt(fd: i32, level: i32, name: i32, val: *const core::ffi::c_void, len: u32) -> i32;
+}
+
+/// "when an offload is unsupported the layer degrades to plain sends without losing, merging or truncating
+/// datagrams": SO_NO_CHECK (IPv4) / UDP_NO_CHECK6_TX (IPv6) make the Linux UDP stack answer EINVAL to every
+/// sendmsg carrying UDP_SEGMENT (udp_send_skb / udp_v6_send_skb) while plain sends keep working — the same
+/// answer a device without segmentation offload gives. The batch must still arrive datagram by datagram, and
+/// ECN must still be conveyed by later sends on the socket.
+fn refused(o: &mut Out, v6: bool, seed: u64) {
+    use std::os::fd::AsRawFd;
+    let Some(p) = pair(v6) else {
+        return;
+    };
+    if p.tx_state.max_gso_segments() < 2 {
+        return;
+    }
+    let on: i32 = 1;
+    // linux generic ABI: SOL_SOCKET = 1, SO_NO_CHECK = 11; SOL_UDP = 17, UDP_NO_CHECK6_TX = 101
+    let (level, name) = if v6 { (17, 101) } else { (1, 11) };
+    let rc = unsafe { setsockopt(p.tx.as_raw_fd(), level, name, &on as *const i32 as *const _, 4) };
+    // IPv6 receivers drop zero-checksum datagrams unless told otherwise (UDP_NO_CHECK6_RX = 102)
+    let rc2 = if v6 { unsafe { setsockopt(p.rx.as_raw_fd(), 17, 102, &on as *const i32 as *const _, 4) } } else { 0 };
+    if rc != 0 || rc2 != 0 {
+        *o.hist.entry(format!("refused v6={v6}: checksum-off option unavailable")).or_default() += 1;
+        return;
+    }
+    let ctx = format!("GSO-refusing socket v6 {v6}");
+    for (k, (seg, len)) in [(100usize, 300usize), (1200, 1300), (500, 1499)].into_iter().enumerate() {
+        let contents = content(len, seed + k as u64);
+        let t = Transmit { destination: p.rx_addr, ecn: Some(EcnCodepoint::Ect0), contents: &contents, segment_size: Some(seg), src_ip: None };
+        let (gso_before, einval_before) = (p.tx_state.max_gso_segments(), p.tx_state.verif_sendmsg_einval());
+        let r = p.tx_state.send(UdpSockRef::from(&p.tx), &t);
+        let got = recv_all(&p, len);
+        let lens: Vec<String> = got.iter().map(|(d, _)| d.len().to_string()).collect();
+        let lens = if lens.is_empty() { "-".to_string() } else { lens.join(",") };
+        o.rec(
+            format!("udp refused {} {gso_before} {} {seg} {len}", !v6 as u8, einval_before as u8),
+            format!("{} {lens} {} {}", if r.is_ok() { "ok" } else { "err" }, p.tx_state.max_gso_segments(), p.tx_state.verif_sendmsg_einval() as u8),
+        );
+        let expected: Vec<&[u8]> = contents.chunks(seg).collect();
+        if r.is_ok() && (got.len() != expected.len() || got.iter().zip(&expected).any(|((d, _), e)| d.as_slice() != *e)) {
+            o.fails.push(format!(
+                "key=udp-gso-refused-batch-lost send returned Ok for a transmit of {len} bytes in segments of {seg} on a socket whose kernel path answers EINVAL to UDP_SEGMENT ({ctx}), but the receiver got [{lens}] instead of {} datagrams: the batch was neither re-sent as plain datagrams nor reported",
+                expected.len()
+            ));
+        }
+        for (_, m) in &got {
+            if m.ecn != t.ecn {
+                o.fails.push(format!("key=udp-ecn-not-conveyed sent {:?} got {:?} ({ctx}, fallback datagrams)", t.ecn, m.ecn));
+            }
+        }
+    }
+    // later plain sends on the same socket must still convey ECN
+    for ecn in [Some(EcnCodepoint::Ect0), Some(EcnCodepoint::Ce)] {
+        let contents = content(900, seed + 77);
+        let t = Transmit { destination: p.rx_addr, ecn, contents: &contents, segment_size: None, src_ip: None };
+        let _ = p.tx_state.send(UdpSockRef::from(&p.tx), &t);
+        let got = recv_all(&p, 900);
+        if got.len() != 1 {
+            o.fails.push(format!("key=udp-send-after-gso-fallback-lost {} datagrams received ({ctx})", got.len()));
+        }
+        for (_, m) in &got {
+            if m.ecn != ecn {
+                o.fails.push(format!(
+                    "key=udp-ecn-disabled-after-gso-fallback after a refused GSO batch a plain send with {ecn:?} arrived with {:?} ({ctx}; sendmsg_einval={})",
+                    m.ecn,
+                    p.tx_state.verif_sendmsg_einval()
+                ));
+            }
+        }
+    }
 }
 
 fn main() {
@@ -165,36 +396,18 @@ fn main() {
             let src_ip = if rng.chance(1, 3) { Some(p.tx_addr.ip()) } else { None };
             let contents = content(len, seed + i);
             let t = Transmit { destination: p.rx_addr, ecn, contents: &contents, segment_size, src_ip };
-            if let Err(e) = p.tx_state.send(UdpSockRef::from(&p.tx), &t) {
-                if len > 9000 {
-                    continue; // EMSGSIZE on loopback MTU is the kernel's business
-                }
-                o.fails.push(format!("key=udp-send-failed len {len} seg {segment_size:?}: {e}"));
-                continue;
-            }
-            sent_cases += 1;
-            let got = recv_all(&p, len);
-            let lens: Vec<String> = got.iter().map(|(d, _)| d.len().to_string()).collect();
-            o.rec(format!("udp wire {} {len}", segment_size.map_or("-".to_string(), |x| x.to_string())), lens.join(","));
-            // C19 oracles on the real sockets: bytes identical and in order, ECN and addresses conveyed
-            let cat: Vec<u8> = got.iter().flat_map(|(d, _)| d.iter().copied()).collect();
-            if cat != contents {
-                o.fails.push(format!("key=udp-payload-altered len {len} seg {segment_size:?}: received {} bytes in {} datagrams", cat.len(), got.len()));
-            }
-            for (_, m) in &got {
-                if m.addr != p.tx_addr {
-                    o.fails.push(format!("key=udp-source-address-wrong {} != {}", m.addr, p.tx_addr));
-                }
-                if m.ecn != ecn {
-                    o.fails.push(format!("key=udp-ecn-not-conveyed sent {ecn:?} got {:?} (v6 {v6}, len {len}, seg {segment_size:?}, src {src_ip:?})", m.ecn));
-                }
-                if let Some(d) = m.dst_ip {
-                    if d != p.rx_addr.ip() {
-                        o.fails.push(format!("key=udp-dst-ip-wrong {d} != {}", p.rx_addr.ip()));
-                    }
-                }
+            if exchange(&mut o, &p, &t, &format!("v6 {v6}")) {
+                sent_cases += 1;
             }
         }
+    }
+    // ---- every boundary shape on every socket family (exhaustive, independent of <ncases>)
+    for kind in [Kind::V4, Kind::V6, Kind::DualTx, Kind::DualRx, Kind::DualBoth] {
+        sent_cases += shapes(&mut o, &mut rng, kind, seed);
+    }
+    // ---- a kernel that refuses segmentation offload for this socket (EINVAL on every UDP_SEGMENT send)
+    for v6 in [false, true] {
+        refused(&mut o, v6, seed);
     }
     let mut s = String::new();
     s += &format!("component=udp\nrule=exhaustive option table of prepare_msg (3 destination families x einval x gso x source x ECN = 288 combinations) and libc CMSG_SPACE values against the model; effective_segment_size on boundary cases; real loopback sockets (v4 and v6) through UdpSocketState::send/recv: payload lengths 1..65507, segment sizes 1/7/500/1200/1452, 1..12 segments with short last segment, every ECN codepoint, explicit source or none; received buffers split by stride exactly as quinn's poll_socket does; non-trivial = a loopback transmission with more than one segment or an ECN codepoint\ncases={}\nevaluations={}\ndistinct_nontrivial={}\n", sent_cases + 1, o.ops.len(), sent_cases);
